@@ -305,11 +305,17 @@ func (p *Program) Func(pk *packages.Package, recv, name string) *ssa.Function {
 	if t == nil {
 		return nil
 	}
-	if m := p.SSA.LookupMethod(types.NewPointer(t.Type()), pk.Types, name); m != nil && m.Synthetic == "" {
-		return m
-	}
-	if m := p.SSA.LookupMethod(t.Type(), pk.Types, name); m != nil && m.Synthetic == "" {
-		return m
+	for _, rt := range []types.Type{types.NewPointer(t.Type()), t.Type()} {
+		ms := p.SSA.MethodSets.MethodSet(rt)
+		if sel := ms.Lookup(pk.Types, name); sel != nil {
+			if m := p.SSA.MethodValue(sel); m != nil {
+				// unwrap the synthetic pointer-receiver wrapper of a value method
+				if m.Synthetic != "" {
+					continue
+				}
+				return m
+			}
+		}
 	}
 	return nil
 }
